@@ -1668,6 +1668,9 @@ func (fr *Frame) checkCallSiteAsserts(c *ssa.CallCommon, args []Term, preFn Term
 					}
 					g2[gname] = u.define("gset!"+gname, asStr(v.t))
 					st.ghost = g2
+					if cur.Sort == SStr {
+						u.features["strmonoid"] = true
+					}
 					continue
 				}
 				v, err := ctx.eval(cl.E)
